@@ -93,6 +93,9 @@ func runC20(c *Ctx) {
 		{"hex32 uint64", "U64HexV2", "HexU64V2", []string{"strconv.FormatUint(_,32)"}, []string{"strconv.ParseUint(_,32,64)"}},
 		{"UnixNano2Time", "UnixNano2Time.Value", "(*UnixNano2Time).Scan", []string{"(time.Time).UnixNano(_)"}, []string{"time.Unix(0,_)"}},
 		{"Unix2Time", "Unix2Time.Value", "(*Unix2Time).Scan", []string{"(time.Time).Unix(_)"}, []string{"time.Unix(_,0)"}},
+		{"UnixStamp sql", "UnixStamp.Value", "(*UnixStamp).Scan", []string{"time.Unix(_,0)"}, []string{"(time.Time).Unix(_)"}},
+		{"SQLTime2Unix", "SQLTime2Unix.Value", "(*SQLTime2Unix).Scan", []string{"time.Unix(_,0)"}, []string{"(time.Time).Unix(_)"}},
+		{"JsByte text", "JsByte.ToString", "(*JsByte).FromString", []string{"strconv.Itoa(_)", "(*bytes.Buffer).WriteString(_,\"/\")"}, []string{"strings.Split(_,\"/\")", "strconv.Atoi(_)|strconv.ParseInt(_,10,64)"}},
 	}
 	has := func(set map[string]bool, alt string) bool {
 		for _, a := range strings.Split(alt, "|") {
@@ -142,6 +145,21 @@ func runC20(c *Ctx) {
 					if !okFam {
 						missing = append(missing, "decoder uses "+s)
 					}
+				}
+			}
+		}
+		// the text an encoder built is handed out as it is: a transformation applied afterwards (strings.Replace*,
+		// ToUpper, Trim*, ...) produces a text the decoder was not written for
+		for s := range es {
+			if (strings.HasPrefix(s, "strings.") || strings.HasPrefix(s, "bytes.Replace") || strings.HasPrefix(s, "bytes.To") || strings.HasPrefix(s, "bytes.Trim")) && !strings.HasPrefix(s, "strings.Builder") {
+				okFam := false
+				for _, w := range p.encCalls {
+					if has(map[string]bool{s: true}, w) {
+						okFam = true
+					}
+				}
+				if !okFam {
+					missing = append(missing, "encoder rewrites its text with "+s)
 				}
 			}
 		}
